@@ -176,9 +176,10 @@ ConnValues(key) ==
                                              Mp([id |-> S("a"), psk |-> S(" k")]), Mp([id |-> S("a"), psk |-> S("k ")]), Mp([id |-> S("a"), psk |-> S("k\n")]),
                                              Mp([id |-> S("a"), psk |-> S("\tk")]), Mp([id |-> S("a"), psk |-> S(" ")]), Mp([id |-> S("a"), psk |-> S("K")])}
     [] key \in {"lifetime", "dpd"} -> {I(0), I(1), I(86400), S("60"), S("6o")}
-    [] key = "encr" -> {Lst(Strs(<<"aes256">>)), Lst(Strs(<<"aes128", "aes256">>)), Lst(Strs(<<"3des">>)), Lst(<<I(256)>>), S("aes256")}
-    [] key \in {"integ", "prf"} -> {Lst(Strs(<<"sha1", "sha512", "sha256">>)), Lst(Strs(<<"md5">>)), S("sha256"), Lst(<<Null>>)}
-    [] key = "dh" -> {Lst(<<I(21), I(19), I(14)>>), Lst(Strs(<<"modp2048", "ecp521">>)), Lst(<<I(1)>>), Lst(Strs(<<"ecp999">>)), I(14)}
+    \* (a list may name the same algorithm twice - by the same name, or by a number and a name of one group: "exactly the listed algorithms in the listed order")
+    [] key = "encr" -> {Lst(Strs(<<"aes256">>)), Lst(Strs(<<"aes128", "aes256">>)), Lst(Strs(<<"3des">>)), Lst(<<I(256)>>), S("aes256"), Lst(Strs(<<"aes128", "aes256", "aes128">>))}
+    [] key \in {"integ", "prf"} -> {Lst(Strs(<<"sha1", "sha512", "sha256">>)), Lst(Strs(<<"md5">>)), S("sha256"), Lst(<<Null>>), Lst(Strs(<<"sha256", "sha1", "sha256">>))}
+    [] key = "dh" -> {Lst(<<I(21), I(19), I(14)>>), Lst(Strs(<<"modp2048", "ecp521">>)), Lst(<<I(1)>>), Lst(Strs(<<"ecp999">>)), I(14), Lst(<<I(14), S("modp2048"), S("14")>>), Lst(<<S("ecp256"), I(19)>>)}
     [] key = "protect" -> {Lst(<<>>), Lst(<<BaseProtect, Mp([index |-> I(6), ipsec_proto |-> S("ah")])>>), BaseProtect, Lst(<<S("x")>>), Lst(<<Mp(<<>>)>>)}
     [] OTHER -> {}
 ProtValues(key) ==
@@ -189,9 +190,9 @@ ProtValues(key) ==
     [] key \in {"my_subnet", "peer_subnet"} -> {S("10.1.0.0/24"), S("10.2.0.0/16"), S("2001:db8::/64"), S("192.168.0.2"), S("10.1.0.0/33"), S("nonsense")}
     [] key \in {"my_port", "peer_port"} -> {I(0), I(65535), I(70000), S("23"), S("2x")}
     [] key \in {"lifetime", "index"} -> {I(0), I(300), S("600"), S("soon")}
-    [] key = "encr" -> {Lst(Strs(<<"aes128">>)), Lst(Strs(<<"aes999">>)), S("aes128")}
-    [] key = "integ" -> {Lst(Strs(<<"sha256", "sha512">>)), Lst(Strs(<<"sha3">>))}
-    [] key = "dh" -> {Lst(<<>>), Lst(<<I(14)>>), Lst(Strs(<<"ecp384">>)), Lst(<<I(2)>>)}
+    [] key = "encr" -> {Lst(Strs(<<"aes128">>)), Lst(Strs(<<"aes999">>)), S("aes128"), Lst(Strs(<<"aes256", "aes256">>))}
+    [] key = "integ" -> {Lst(Strs(<<"sha256", "sha512">>)), Lst(Strs(<<"sha3">>)), Lst(Strs(<<"sha512", "sha256", "sha512">>))}
+    [] key = "dh" -> {Lst(<<>>), Lst(<<I(14)>>), Lst(Strs(<<"ecp384">>)), Lst(<<I(2)>>), Lst(<<I(14), S("modp2048")>>)}
     [] OTHER -> {}
 ConnKeys == {"my_addr", "peer_addr", "my_auth", "peer_auth", "lifetime", "dpd", "encr", "integ", "prf", "dh", "protect", "unknown_key"}
 ProtKeys == {"ipsec_proto", "mode", "ip_proto", "my_subnet", "peer_subnet", "my_port", "peer_port", "lifetime", "index", "encr", "integ", "dh", "unknown_key"}
